@@ -71,6 +71,8 @@ func refMatch(globs, target string) bool {
 type c14Case struct {
 	Feats   []progen.Feat `json:"feats"`
 	Pattern int           `json:"pattern"`
+	// Degenerate is a second GOGARBLE value that selects nothing ("" = not tried)
+	Degenerate string `json:"degenerate,omitempty"`
 	Args    []string      `json:"args"`
 }
 
@@ -141,6 +143,23 @@ func c14Run(c c14Case) (v *verdict, prog *progen.Program, labels []string, descs
 	pbin, gbin := filepath.Join(dir, "plain.bin"), filepath.Join(dir, "garbled.bin")
 	if r := plain.Go(src, nil, "build", "-o", pbin, "."); !r.OK() {
 		rc.Abort("generated program does not build: %s\n%s", r.Brief(), files["main.go"])
+	}
+	// (e') a list that holds no pattern at all, or only patterns that match nothing, spelled with
+	// stray commas: refused like any other list that selects nothing (cheap: no build is needed)
+	if c.Degenerate != "" {
+		labels = append(labels, "degenerate-list")
+		dbox := h.NewPlainCaseBox(dir)
+		dbin := filepath.Join(dir, "degenerate.bin")
+		g := dbox.Garble(h.Config{GOGARBLE: c.Degenerate}, src, "build", "-o", dbin, ".")
+		_, statErr := os.Stat(dbin)
+		h.RemoveAll(dbox.Root)
+		if g.TimedOut {
+			rc.Abort("garble timed out: %s", g.Brief())
+		}
+		if g.Exit == 0 || statErr == nil {
+			return violationf("C14/no-match-accepted", "GOGARBLE=%q selects none of the packages being built, yet garble did not refuse (exit %d, binary written: %v)\n%s", c.Degenerate, g.Exit, statErr == nil, g.Brief()), prog, labels, descs
+		}
+		descs = append(descs, "degenerate-rejected")
 	}
 	if !anyMatch && !stdMatched {
 		// (e) nothing to obfuscate: garble must refuse; no std build is needed for that
@@ -294,6 +313,7 @@ func TestC14(t *testing.T) {
 		spec := progen.Draw(t, progen.Options{Kinds: kinds, MinPkgs: 5, MaxPkgs: 5, MinFeats: 4, MaxFeats: 9, NoExit: true})
 		c.Feats = spec.Feats
 		c.Pattern = rapid.IntRange(0, rc.Pick(5, len(c14Patterns)-1)).Draw(t, "pattern")
+		c.Degenerate = rapid.SampledFrom([]string{"", ",", ",,,", "nomatch.example/x,", ",nomatch.example/x,,other.example", c14Mod + "/alph", c14Mod + "/alpha/inn,"}).Draw(t, "degenerate")
 		c.Args = rapid.SliceOfN(rapid.SampledFrom([]string{"1", "7", "x", "hello"}), 0, 2).Draw(t, "args")
 		v, prog, labels, descs := c14Run(c)
 		mixed := strings.Contains(strings.Join(labels, ","), "mixed") && strings.Contains(strings.Join(labels, ","), "crossing-import")
